@@ -78,3 +78,11 @@ Proof.
   repeat constructor; unfold dev_ok; simpl; lia.
 Qed.
 Print Assumptions C07_instance.
+
+(* the library's group function handlers (Model/GroupFnDefs.v, property C09) satisfy the contract, so node_safe holds for the node
+   as shipped; the device-list half of C07 is C18_heap_safe (Props/Properties_C18.v) *)
+From N2kV Require Import Model.GroupFnDefs Proofs.GroupFnSafe.
+Theorem C07_gf_lib_ok : gf_ok gf_lib.  Proof. exact gf_lib_ok. Qed.
+Print Assumptions C07_gf_lib_ok.
+Theorem C07_gf_lib_keeps_rxq : gf_keeps_rxq gf_lib.  Proof. exact gf_lib_keeps_rxq. Qed.
+Print Assumptions C07_gf_lib_keeps_rxq.
